@@ -1183,3 +1183,209 @@ func factStrsDeep(fn *ssa.Function, site ssa.Instruction) map[string]bool {
 	}
 	return out
 }
+
+// ---------- context-sensitive provenance through same-package helpers ----------
+
+// dctx is the stack of call sites entered while walking backwards from a value
+// into the bodies of same-package helpers (innermost last).
+type dctx []*ssa.Call
+
+func (c dctx) top() *ssa.Call {
+	if len(c) == 0 {
+		return nil
+	}
+	return c[len(c)-1]
+}
+
+// helperBody: the body to descend into for a call — a static callee with source in the same
+// package as the caller (what an extract-helper refactoring produces); nil otherwise.
+func helperBody(call *ssa.Call) *ssa.Function {
+	g := unwrapSynthetic(staticCallee(call))
+	if g == nil || g.Blocks == nil || call.Parent() == nil || originPkgPath(g) != originPkgPath(call.Parent()) {
+		return nil
+	}
+	return g
+}
+
+// paramArg: if p is a parameter of the helper entered by the innermost call of ctx, the argument
+// passed for it and the remaining context.
+func paramArg(p *ssa.Parameter, ctx dctx) (ssa.Value, dctx, bool) {
+	call := ctx.top()
+	if call == nil {
+		return nil, ctx, false
+	}
+	g := helperBody(call)
+	if g == nil || p.Parent() != g {
+		return nil, ctx, false
+	}
+	args := callArgs(call)
+	for i, q := range g.Params {
+		if q == p && i < len(args) {
+			return args[i], ctx[:len(ctx)-1], true
+		}
+	}
+	return nil, ctx, false
+}
+
+// derivesFromDeep is derivesFrom that also walks into same-package helpers: from a call to the
+// helper's returned values (pushing the call on the context) and from a helper's parameter back
+// to the argument of the call it was entered through. src sees the context of each value.
+func derivesFromDeep(v ssa.Value, ctx0 dctx, src func(ssa.Value, dctx) bool) bool {
+	type key struct {
+		v   ssa.Value
+		n   int
+		top *ssa.Call
+	}
+	seen := map[key]bool{}
+	var rec func(v ssa.Value, ctx dctx, d int) bool
+	rec = func(v ssa.Value, ctx dctx, d int) bool {
+		if v == nil || d > 60 {
+			return false
+		}
+		k := key{v, len(ctx), ctx.top()}
+		if seen[k] {
+			return false
+		}
+		seen[k] = true
+		if src(v, ctx) {
+			return true
+		}
+		switch x := v.(type) {
+		case *ssa.Parameter:
+			if a, c2, ok := paramArg(x, ctx); ok {
+				return rec(a, c2, d+1)
+			}
+		case *ssa.FreeVar:
+			if b := freeVarBinding(x); b != nil {
+				return rec(b, ctx, d+1)
+			}
+		case *ssa.Phi:
+			for _, e := range x.Edges {
+				if rec(e, ctx, d+1) {
+					return true
+				}
+			}
+		case *ssa.UnOp:
+			if x.Op == token.MUL {
+				if rec(x.X, ctx, d+1) {
+					return true
+				}
+				for _, s := range storesTo(x.X) {
+					if rec(s.Val, ctx, d+1) {
+						return true
+					}
+				}
+				return false
+			}
+			return rec(x.X, ctx, d+1)
+		case *ssa.BinOp:
+			return rec(x.X, ctx, d+1) || rec(x.Y, ctx, d+1)
+		case *ssa.Convert:
+			return rec(x.X, ctx, d+1)
+		case *ssa.ChangeType:
+			return rec(x.X, ctx, d+1)
+		case *ssa.MakeInterface:
+			return rec(x.X, ctx, d+1)
+		case *ssa.ChangeInterface:
+			return rec(x.X, ctx, d+1)
+		case *ssa.TypeAssert:
+			return rec(x.X, ctx, d+1)
+		case *ssa.Extract:
+			if call, ok := x.Tuple.(*ssa.Call); ok && len(ctx) < 4 {
+				if g := helperBody(call); g != nil {
+					if src(call, ctx) {
+						return true
+					}
+					found := false
+					eachInstr(g, func(in ssa.Instruction) {
+						if ret, ok := in.(*ssa.Return); ok && !isRecoverReturn(ret) && !found {
+							if vals := retVals(ret); x.Index < len(vals) {
+								found = rec(vals[x.Index], append(append(dctx{}, ctx...), call), d+1)
+							}
+						}
+					})
+					return found
+				}
+			}
+			return rec(x.Tuple, ctx, d+1)
+		case *ssa.Field:
+			return rec(x.X, ctx, d+1)
+		case *ssa.FieldAddr:
+			return rec(x.X, ctx, d+1)
+		case *ssa.IndexAddr:
+			return rec(x.X, ctx, d+1)
+		case *ssa.Index:
+			return rec(x.X, ctx, d+1)
+		case *ssa.Slice:
+			return rec(x.X, ctx, d+1)
+		case *ssa.Lookup:
+			return rec(x.X, ctx, d+1)
+		case *ssa.Call:
+			if g := helperBody(x); g != nil && len(ctx) < 4 {
+				found := false
+				eachInstr(g, func(in ssa.Instruction) {
+					if ret, ok := in.(*ssa.Return); ok && !isRecoverReturn(ret) && !found {
+						for _, rv := range retVals(ret) {
+							if rec(rv, append(append(dctx{}, ctx...), x), d+1) {
+								found = true
+							}
+						}
+					}
+				})
+				return found
+			}
+			for _, a := range callArgs(x) {
+				if rec(a, ctx, d+1) {
+					return true
+				}
+			}
+		case *ssa.Alloc:
+			for _, st := range storesTo(x) {
+				if rec(st.Val, ctx, d+1) {
+					return true
+				}
+			}
+			if refs := x.Referrers(); refs != nil {
+				for _, ref := range *refs {
+					switch a := ref.(type) {
+					case *ssa.IndexAddr:
+						for _, st := range storesTo(a) {
+							if rec(st.Val, ctx, d+1) {
+								return true
+							}
+						}
+					case *ssa.FieldAddr:
+						for _, st := range storesTo(a) {
+							if rec(st.Val, ctx, d+1) {
+								return true
+							}
+						}
+					}
+				}
+			}
+		}
+		return false
+	}
+	return rec(v, ctx0, 0)
+}
+
+// ctxFieldPath is fieldPath with the root resolved through the helper context: a path rooted at
+// a helper's parameter continues with the path of the argument it was called with.
+func ctxFieldPath(v ssa.Value, ctx dctx) (ssa.Value, []string) {
+	root, p := fieldPath(v)
+	root = resolveVal(root)
+	for i := 0; i < 6; i++ {
+		prm, ok := root.(*ssa.Parameter)
+		if !ok {
+			break
+		}
+		a, c2, ok := paramArg(prm, ctx)
+		if !ok {
+			break
+		}
+		r2, p2 := fieldPath(a)
+		root, ctx = resolveVal(r2), c2
+		p = append(append([]string{}, p2...), p...)
+	}
+	return root, p
+}
